@@ -17,6 +17,7 @@ import (
 	"verif/sim/core"
 	"verif/sim/rig"
 	"verif/sim/simnet"
+	"verif/sim/simstream"
 )
 
 func init() {
@@ -33,10 +34,12 @@ type c18Cfg struct {
 	loopback     bool
 	listenFaults bool
 	mdns         bool // mDNS gather mode: the name is published instead of the IP
+	tcpMux       bool // a TCP mux listens on every address: TCP is a transport "that has a listener"
+	relayType    bool // the relay candidate type is enabled too (no TURN URL: it yields nothing)
 }
 
 func (k c18Cfg) String() string {
-	return fmt.Sprintf("net=%v srflx=%v ports=%d-%d iface=%d ip=%d lo=%v lfaults=%v mdns=%v", k.netTypes, k.srflx, k.portMin, k.portMax, k.ifaceMode, k.ipMode, k.loopback, k.listenFaults, k.mdns)
+	return fmt.Sprintf("net=%v srflx=%v ports=%d-%d iface=%d ip=%d lo=%v lfaults=%v mdns=%v", k.netTypes, k.srflx, k.portMin, k.portMax, k.ifaceMode, k.ipMode, k.loopback, k.listenFaults, k.mdns) + map[bool]string{true: " tcpmux", false: ""}[k.tcpMux] + map[bool]string{true: " relaytype", false: ""}[k.relayType]
 }
 
 var c18Ifaces = []simnet.IfaceSpec{
@@ -142,7 +145,8 @@ func runC18(c *core.Ctx) {
 	k.netTypes = [][]ice.NetworkType{
 		{ice.NetworkTypeUDP4}, {ice.NetworkTypeUDP4, ice.NetworkTypeUDP6}, {}, {ice.NetworkTypeUDP6},
 		{ice.NetworkTypeUDP4, ice.NetworkTypeTCP4}, {ice.NetworkTypeTCP4},
-	}[t.Pick([]int{4, 3, 2, 2, 1, 1}, "nettypes")]
+		{ice.NetworkTypeTCP4, ice.NetworkTypeUDP4}, {ice.NetworkTypeUDP6, ice.NetworkTypeTCP4},
+	}[t.Pick([]int{4, 3, 2, 2, 1, 1, 1, 1}, "nettypes")]
 	k.srflx = t.Bias(1, 3, "srflx")
 	switch t.Choose(3, "ports") {
 	case 1:
@@ -155,6 +159,14 @@ func runC18(c *core.Ctx) {
 	k.loopback = t.Bias(1, 3, "loopback")
 	k.listenFaults = t.Bias(1, 3, "listenfaults")
 	k.mdns = t.Bias(1, 5, "mdns")
+	hasTCP4 := false
+	for _, nt := range k.netTypes {
+		if nt == ice.NetworkTypeTCP4 {
+			hasTCP4 = true
+		}
+	}
+	k.tcpMux = !k.mdns && (hasTCP4 || len(k.netTypes) == 0) && t.Bias(1, 2, "tcpmux")
+	k.relayType = t.Bias(1, 3, "relaytype")
 	busy := t.Bias(1, 3, "busyports")
 	restartAt := -1
 	if t.Bias(1, 2, "restart?") {
@@ -187,7 +199,16 @@ func runC18(c *core.Ctx) {
 		u, _ := stun.ParseURI("stun:203.0.113.5:3478")
 		opts = append(opts, ice.WithUrls([]*stun.URI{u}))
 	}
+	if k.relayType {
+		types = append(types, ice.CandidateTypeRelay)
+	}
 	opts = append(opts, ice.WithCandidateTypes(types))
+	if k.tcpMux {
+		lst := simstream.Listen(&net.TCPAddr{IP: net.IPv4zero, Port: 7002})
+		tm := ice.NewTCPMuxDefault(ice.TCPMuxParams{Listener: lst, Logger: rig.Quiet().NewLogger("tcpmux"), ReadBufferSize: 8})
+		c.Defer(func() { _ = tm.Close() })
+		opts = append(opts, ice.WithTCPMux(tm), ice.WithDisableActiveTCP())
+	}
 	if k.portMin != 0 {
 		opts = append(opts, ice.WithPortRange(k.portMin, k.portMax))
 	}
@@ -528,7 +549,8 @@ func (o *c18Oracle) observe() {
 			if !isElig(ip) {
 				c.Failf("C18/host-candidate-on-ineligible-address", "published %s; eligible addresses: %v", where, elig)
 			}
-			if !inRange(cand.Port()) {
+			// (a TCP host candidate borrows the mux's listener: the port range does not apply to it)
+			if !inRange(cand.Port()) && cand.NetworkType().IsUDP() {
 				c.Failf("C18/host-port-outside-range", "published %s", where)
 			}
 		case ice.CandidateTypeServerReflexive:
@@ -592,6 +614,30 @@ func (o *c18Oracle) endCycle() {
 	for _, ap := range fl {
 		if ap.Addr().IsValid() {
 			o.failedIPs[ap.Addr().Unmap().WithZone("")] = true
+		}
+	}
+	if k.tcpMux {
+		// TCP has a listener: every eligible IPv4 address yields a passive TCP host candidate on the mux port
+		haveTCP := map[netip.Addr]bool{}
+		for _, cand := range o.cycleCand {
+			if cand.Type() == ice.CandidateTypeHost && cand.NetworkType() == ice.NetworkTypeTCP4 && cand.TCPType() == ice.TCPTypePassive {
+				if ip, err := netip.ParseAddr(cand.Address()); err == nil {
+					haveTCP[ip] = true
+					if cand.Port() != 7002 {
+						c.Failf("C18/tcp-host-candidate-port", "passive TCP host candidate %s is not on the port of the TCP mux (7002)", rig.CandAddr(cand))
+					}
+				}
+			}
+		}
+		var missingTCP []string
+		for _, ip := range k.eligible() {
+			if ip.Is4() && !haveTCP[ip] {
+				missingTCP = append(missingTCP, ip.String())
+			}
+		}
+		sort.Strings(missingTCP)
+		if len(missingTCP) > 0 {
+			c.Failf("C18/missing-tcp-host-candidate", "cycle completed without a passive TCP host candidate for eligible address(es) %v although tcp4 is enabled and a TCP mux listens (%s); published: %v", missingTCP, k, candList(o.cycleCand))
 		}
 	}
 	var missing []string
